@@ -34,6 +34,8 @@ VARIABLES
   cnt     \* counters
 
 vars == <<i, cfg, gf, st, skip, cnt>>
+\* one state per event index: used as VIEW (fingerprint of i only)
+ViewI == i
 
 NoCfg == [op |-> "cfg", id |-> -1, kind |-> "none", n |-> 1, f |-> 1, stakes |-> <<1>>]
 Zero == [cfgs |-> 0, runs |-> 0, net |-> 0, probes |-> 0, trees |-> 0, skipped |-> 0, divs |-> 0,
